@@ -48,9 +48,14 @@ def run(ctx):
     BLOB = ("len", ("param", DEC, 2))
     nal = 0
     for bb, t in dec.calls():
-        if strip_generics(t["fn"].get("path", "")).endswith("vec_zero_filled"):
+        pth = strip_generics(t["fn"].get("path", ""))
+        # the project's vec_zero_filled(n), or the std forms of the same allocation: vec![0u8; n], Vec::with_capacity(n) + resize(n, 0)
+        if pth.endswith("vec_zero_filled") or (callee_name(pth) == "from_elem" and "vec" in pth) or (callee_name(pth) == "resize" and "Vec" in pth):
+            a_ = dev.call_args(bb)
+            n = a_[0] if pth.endswith("vec_zero_filled") else a_[1]
+            if n[0] == "int":
+                continue
             nal += 1
-            n = dev.call_args(bb)[0]
             ok = B.le(n, BLOB, 0, bb)
             ctx.check("bounded-allocation", "decrypt_seed/dek-buffer", ok, "allocation for the wrapped DEK is at most the blob length",
                       "decrypt_seed allocates %s bytes without bounding it by the blob length" % fmt(n), dec.loc(bb))
@@ -147,6 +152,9 @@ def run(ctx):
     for (_, b, name, a) in writes:
         v = a[1] if len(a) > 1 else None
         v0 = uncast(values.strip_payload(v)) if v is not None else None
+        if v0 is not None:
+            from lib import through_conversions
+            v0 = uncast(through_conversions(v0)[0])      # `kms.encrypt_dek(..).map_err(|e| { warn!(..); e })?`: the Ok payload is encrypt_dek's
         verdict = None
         if v0 is None:
             verdict = "no value"
@@ -280,7 +288,8 @@ def run(ctx):
         dl = ("vfield", dev.call_term(reads[0][1]), "Continue", 0)
         b1 = reads[2][2][1]
         init = W.obj_init(b1) if b1[0] == "obj" else None
-        okd = is_call(init, "vec_zero_filled") and uncast(init[2][0]) == dl
+        okd = (is_call(init, "vec_zero_filled") and uncast(init[2][0]) == dl) or \
+            (is_call(init) and callee_name(init[1]) == "from_elem" and len(init[2]) == 2 and init[2][0] == ("int", 0) and uncast(init[2][1]) == dl)
         ctx.check("agreement", "wrapped-dek-length-from-first-field", okd, "the wrapped DEK is read with the first length field", "wrapped DEK buffer is %s" % fmt(init), dec.loc(reads[2][1]))
         nl = ("vfield", dev.call_term(reads[1][1]), "Continue", 0)
         b2 = reads[3][2][1]
